@@ -18,15 +18,12 @@ EXCEPTIONS = {
     ("tsk_edge_table_squash", "tsk_edge_table_clear"): "clear == truncate(0): the only failure is num_rows > self->num_rows",
     ("tsk_table_sorter_sort_sites", "tsk_site_table_clear"): "clear == truncate(0) cannot fail",
     ("tsk_treeseq_split_edges", "tsk_edge_table_clear"): "clear == truncate(0) cannot fail",
-    ("simplifier_merge_ancestors", "simplifier_record_node"): "fails only on allocation failure / table overflow (outside every property's quantifier)",
     ("tsk_table_collection_loadf_inited", "kastore_close"): "cleanup after the load result is already decided",
     ("tsk_table_collection_load", "fclose"): "cleanup of a read-only stream",
     ("tsk_table_collection_dump", "fclose"): "cleanup on the error path (the success path tests fclose)",
     ("tsk_table_collection_dumpf", "kastore_close"): "cleanup on the error path (the success path tests kastore_close)",
     ("get_mutation_samples", "tsk_treeseq_get_site"): "site ids were validated by check_sites before this helper runs",
     ("get_mutation_samples", "get_allele_samples"): "always returns 0",
-    ("compute_two_tree_branch_stat", "compute_two_tree_branch_state_update"): "fails only on allocation failure",
-    ("tsk_matvec_calculator_run", "tsk_matvec_calculator_write_output"): "fails only on allocation failure",
     ("kastore_open", "fclose"): "cleanup on the error path",
     ("kastore_open", "kastore_close"): "cleanup on the error path",
     ("kastore_close", "fclose"): "result folded into ret on the line that follows? no: close of a possibly-read-only stream; write errors are caught by the preceding fflush/fwrite checks",
@@ -35,9 +32,6 @@ EXCEPTIONS = {
     ("TableCollection_load", "fclose"): "close of a dup()ed read-only descriptor",
     ("TreeSequence_dump", "fclose"): "close of a dup()ed descriptor after the dump result is decided",
     ("TreeSequence_load", "fclose"): "close of a dup()ed read-only descriptor",
-    ("Tree_depth", "tsk_tree_get_depth"): "tests `ret` instead of `err`; the callee's only failure (node out of bounds) is pre-empted by "
-                                          "Tree_get_node_argument with the identical interval (idiom deviation, no input reaches it)",
-    ("tsk_table_collection_add_and_remap_node", "tsk_individual_table_add_row"): "checked via ret_id < 0 on the next statement",
 }
 
 
